@@ -375,7 +375,7 @@ func (s *settledEv) Edge(st uint8, from *ssa.BasicBlock, succ int) uint8 {
 		return st
 	}
 	if iff, ok := from.Instrs[len(from.Instrs)-1].(*ssa.If); ok {
-		cond, pos := normCond(iff.Cond, succ == 0)
+		cond, pos := ifCond(iff, succ == 0)
 		if b, ok := cond.(*ssa.BinOp); ok && (b.Op == token.EQL || b.Op == token.NEQ) {
 			var tested ssa.Value
 			if isNilConst(b.Y) {
@@ -399,7 +399,7 @@ func (f *failEv) Name() string { return f.okEv.name }
 func (f *failEv) Edge(st uint8, from *ssa.BasicBlock, succ int) uint8 {
 	if st&bPEND != 0 {
 		if iff, ok := from.Instrs[len(from.Instrs)-1].(*ssa.If); ok {
-			cond, pos := normCond(iff.Cond, succ == 0)
+			cond, pos := ifCond(iff, succ == 0)
 			if b, ok := cond.(*ssa.BinOp); ok && (b.Op == token.EQL || b.Op == token.NEQ) {
 				var tested ssa.Value
 				if isNilConst(b.Y) {
